@@ -8,7 +8,7 @@
     [exp_permanent_bindings] is the generated default of
     core.Exp_PermanentBindings: the proofs compute with both, so changing
     either in the source breaks them on the next run. *)
-From Sheens Require Import Model.Step Model.Action Proofs.StepFacts Proofs.EngineFacts.
+From Sheens Require Import Model.Step Model.Action Proofs.StepFacts Proofs.EngineFacts Proofs.PermChain.
 
 Section C18.
 Variable action : Type.
@@ -55,11 +55,33 @@ Theorem C18_rejecting_guard_no_effect :
 Proof.
   intros g cs H. induction H as [|c r [em Hc] _ IH]; cbn; [reflexivity|]. rewrite Hc. exact IH.
 Qed.
+(** an accepting guard: the bindings the guard loop hands on come from the
+    guard run on one of the candidates and keep that candidate's permanent
+    bindings, whatever the guard did to them *)
+Theorem C18_accepting_guard_keeps :
+  forall g cs b, guard_loop action run g cs = Some (Some b) ->
+  exists c, In c cs /\
+    (nodup_keys (map fst (copy_bs c)) = true ->
+     forall k v, is_permanent k = true -> lookup k (copy_bs c) = Some v -> lookup k b = Some v).
+Proof. exact (guard_accept_keeps action run). Qed.
+
+(** over a history: through any chain of completing executions, each given
+    what the previous one returned, a permanent binding of the first state
+    is present with its first value at the end ([run_sorted]: what a wrapped
+    function returns is a Go map, i.e. has unique keys) *)
+Theorem C18_history_keeps :
+  run_sorted action run -> forall l bs out k v,
+  sorted_keys bs = true -> exec_chain action run l bs = Some out ->
+  is_permanent k = true -> lookup k bs = Some v ->
+  lookup k out = Some v /\ sorted_keys out = true.
+Proof. exact (chain_keeps_permanent action run). Qed.
 End C18.
 
 Print Assumptions C18_restored.
 Print Assumptions C18_failing_action_keeps.
 Print Assumptions C18_rejecting_guard_no_effect.
+Print Assumptions C18_accepting_guard_keeps.
+Print Assumptions C18_history_keeps.
 
 (** the names of the error bindings are not permanent, so the clause above
     covers every permanent binding *)
@@ -72,4 +94,14 @@ Example C18_nonvacuous :
   func_exec act run_act (Js (mk_prog [ADelAll] (TRetFresh [("cfg!", JNum 8); ("x", JNum 4)])))
             (Some [("a", JNum 4); ("cfg!", JStr "keep"); ("ver!", JNum 12)])
   = ((Some [("cfg!", JStr "keep"); ("ver!", JNum 12); ("x", JNum 4)], []), false).
+Proof. vm_compute. reflexivity. Qed.
+
+(** non-vacuity of the history clause: three scripts in a row - delete all,
+    overwrite, return a fresh object - and both permanent bindings survive *)
+Example C18_history_nonvacuous :
+  exec_chain act run_act
+    [Js (mk_prog [ADelAll] (TRetFresh [("x", JNum 4)]));
+     Js (mk_prog [ADelAll] (TRetFresh [("cfg!", JNum 8); ("y", JNum 5)]))]
+    [("a", JNum 4); ("cfg!", JStr "keep"); ("ver!", JNum 12)]
+  = Some [("cfg!", JStr "keep"); ("ver!", JNum 12); ("y", JNum 5)].
 Proof. vm_compute. reflexivity. Qed.
